@@ -98,4 +98,19 @@ LEVELS = {
   'note': 'Trusted: Lean kernel; hub/dispatcher models. Reward and registry UpdateConfig are covered by the matrix and the differential check, not by a separate theorem.',
   'technique': 'Lean 4 invariants + field-wise frame theorems; exhaustive optional-field matrix on the implementation',
  },
+ 'C16': {
+  'text': 'C16_token_emits_exact_mirror: for each of the nine bSei messages the Increase/Decrease messages emitted to the reward contract have, for every address, a net effect equal to that address\'s ledger change (and net total = supply change); '
+          'C16_reward_applies: the reward contract applies a mirror message from the registered token exactly; C16_queue_step_token / C16_queue_step_reward: the invariant "token balance + pending decreases = mirrored balance + pending increases" (all addresses, and totals) '
+          'is preserved when the head of the CosmWasm message queue is executed; C16_drained: with an empty queue the two ledgers agree; C16_init: they agree at instantiation without initial balances. '
+          'PARTIAL: the lift over the whole system executor (that no other contract\'s handler touches the two ledgers or forges mirror messages, i.e. the frame for hub/dispatcher/registry/stSei steps and the E3 configuration staying in force) is not proved; it is covered by the differential check and the mirror oracle after every operation, hub-driven burns and mints included.',
+  'note': 'Trusted: Lean kernel; token and reward models; A-CHAIN-1 (depth-first message order, atomicity); E3 (dispatcher.bsei_reward_contract = reward, hub registered). The frame over other contracts is by construction of Sys.handle (it rebuilds only the addressed contract) but not stated as a theorem.',
+  'technique': 'Lean 4 queue invariant (token o reward composition); mirror oracle on every implementation step',
+ },
+ 'C02': {
+  'text': 'C02_bond_delegated_in_full: the Delegate messages of Bond/BondForStSei/BondRewards sum to exactly the payment, go only to validators the registry returned and are never empty (uses the C12 conservation theorem); C02_books_le_delegated: after every slashing check booked <= delegated; '
+          'C02_bond_keeps_gap: a bond raises books and delegations by the same amount; C02_undelegation_exact: a batch undelegation lowers the books by exactly the sum of its Undelegate messages; C02_convert_keeps_sum. '
+          'The liquid-balance clause (funds in = delegate messages out) follows from the first theorem on the model chain and is compared on every implementation transaction.',
+  'note': 'Trusted: Lean kernel; hub and registry models; A-CHAIN-3 (Delegate/Undelegate move exactly the stated amounts). The invariant over whole histories (books <= delegations at every point) is the conjunction of these per-operation theorems; its induction over operation lists is not a separate theorem.',
+  'technique': 'Lean 4 per-operation conservation theorems on top of C12; books-vs-delegations oracle on every implementation transaction',
+ },
 }
